@@ -381,3 +381,7 @@ mod tests {
         // );
     }
 }
+
+#[cfg(all(test, saito_verif))]
+#[path = "/verif/replay/in_crate/slip.rs"]
+mod verif_replay;
